@@ -254,21 +254,40 @@ theorem lanczos_root_homogeneous {m : Nat} (hs : SqrtLaw ops) (c : K) (hc : 0 < 
   ext a b
   simp only [Matrix.smul_apply, Matrix.of_apply, smul_eq_mul, h]
 
+/-- `Diagonalization.forward` as it is adds the jitter to every entry of `T` (`addJitterAll`), which is not the
+documented diagonal jitter (`addJitter`): they differ as soon as `m ≥ 2` and the jitter is non-zero. -/
+theorem diagonalization_jitter_all_entries_counterexample :
+    ∃ (T : Mat Int 2 2) (j : Int), addJitterAll T j ≠ addJitter T j :=
+  ⟨fun _ _ => 0, 1, fun h => by
+    have h01 := congrFun (congrFun h 0) 1
+    simp [addJitterAll, addJitter] at h01⟩
+
+/-- …and they agree on the diagonal (partial statement that does hold of the code as it is). -/
+theorem diagonalization_jitter_diagonal_partial {m : Nat} (T : Mat K m m) (j : K) (a : Fin m) :
+    addJitterAll T j a a = addJitter T j a a := by
+  simp [addJitterAll, addJitter]
+
 /-! ### constants and tests of the source, regenerated on every run -/
 
 /-- The jitter statements of `RootDecomposition.forward` and `Diagonalization.forward` are the documented relative
 jitter `tridiagonal_jitter · min(diag t_mat)` — no clamp, no floor, no absolute term — added before
-`lanczos_tridiag_to_diag`. -/
+`lanczos_tridiag_to_diag`.  (The `Diagonalization` statement `torch.diag_embed(jitter_val * mins).expand_as(t_mat)` is the
+code as it is: `addJitterAll`, open finding; the second alternative is the statement of notes/C09_fix_2.diff, `addJitter`.) -/
 theorem generated_jitter :
     Generated.C09.rootJitter =
       ["mins = to_linear_operator(t_mat)._diagonal().min(dim=-1, keepdim=True)[0].unsqueeze(-1)",
        "jitter_mat = settings.tridiagonal_jitter.value() * mins * torch.eye(t_mat.size(-1), device=t_mat.device, dtype=t_mat.dtype).expand_as(t_mat)",
        "eigenvalues, eigenvectors = lanczos.lanczos_tridiag_to_diag(t_mat + jitter_mat)"] ∧
-    Generated.C09.diagJitter =
+    (Generated.C09.diagJitter =
       ["mins = torch.diagonal(t_mat, dim1=-1, dim2=-2).min(dim=-1, keepdim=True)[0]",
        "jitter_val = settings.tridiagonal_jitter.value()",
        "jitter_mat = torch.diag_embed(jitter_val * mins).expand_as(t_mat)",
-       "eigenvalues, eigenvectors = lanczos.lanczos_tridiag_to_diag(t_mat + jitter_mat)"] := by
+       "eigenvalues, eigenvectors = lanczos.lanczos_tridiag_to_diag(t_mat + jitter_mat)"] ∨
+     Generated.C09.diagJitter =
+      ["mins = torch.diagonal(t_mat, dim1=-1, dim2=-2).min(dim=-1, keepdim=True)[0]",
+       "jitter_val = settings.tridiagonal_jitter.value()",
+       "jitter_mat = torch.diag_embed((jitter_val * mins).expand(*mins.shape[:-1], t_mat.size(-1)))",
+       "eigenvalues, eigenvectors = lanczos.lanczos_tridiag_to_diag(t_mat + jitter_mat)"]) := by
   decide +kernel
 
 
